@@ -4,6 +4,7 @@ from ..common import seed
 from . import sched_common as SC
 
 PID = 'C06'
+LEVEL = 'fault_enumeration'
 RULE = ('C04 workloads x non-empty sets of failing positions (source iterator or mapped function) x exception type '
         '(VErrA, VErrB<VErrA, VErrC, VBase(BaseException)) x catch_filter_exception (off, a type, a tuple) x '
         'schedule. Oracle: delivered == sequential prefix up to the first failing position, then the SAME exception '
